@@ -173,7 +173,7 @@ Qed.
 
 Definition ncr (l : list (bytes * bool)) : N := N.of_nat (length (filter (fun x => snd x) l)).
 
-Lemma ncr_cons : forall lru cr l c,
+Lemma ncr_cons : forall (lru : bytes) (cr : bool) l c,
   (if cr then c + 1 else c) + ncr l = c + ncr ((lru, cr) :: l).
 Proof.
   intros lru cr l c. unfold ncr. cbn [filter snd]. destruct cr; cbn [length]; lia.
@@ -205,7 +205,7 @@ Proof.
       rewrite (IH m) by lia.
       change (length (PI i lru cr path :: its) <=? S m)%nat with (length its <=? m)%nat.
       cbn [firstn length map pout lastik].
-      rewrite !ncr_cons. rewrite <- !app_assoc. cbn [app].
+      rewrite !(ncr_cons lru). rewrite <- !app_assoc. cbn [app].
       replace (n + 1 + N.of_nat (length its)) with (n + N.of_nat (S (length its))) by lia.
       replace (n + 1 + N.of_nat (length (firstn m its)))
         with (n + N.of_nat (S (length (firstn m its)))) by lia.
@@ -235,9 +235,614 @@ Proof.
     destruct (firstn_skipn_last _ m' its ltac:(lia)) as [its1 [x E]]. rewrite <- Em in E.
     assert (Hx : is_PI x).
     { rewrite Forall_forall in Hall. apply Hall.
-      apply (In_firstn_to_In its m x). rewrite E. apply in_or_app. right. left. reflexivity. }
+      rewrite <- (firstn_skipn m its). apply in_or_app. left.
+      rewrite E. apply in_or_app. right. left. reflexivity. }
     destruct x as [i lru cr path|cr]; [|contradiction].
     exists its1, i, lru, cr, path. split; [exact E|].
     cbv zeta. rewrite E at 1. rewrite lastik_app_last. rewrite !N.add_0_l. cbn [app].
     rewrite firstn_length_le by lia. unfold m. rewrite N2Nat.id. reflexivity.
 Qed.
+
+(* ------------------------------------------------------------------------- *)
+(* resuming: the token of an item makes the next call see what follows it     *)
+(* ------------------------------------------------------------------------- *)
+
+(* inside one prefix, for any filter and any rendering of the items *)
+Lemma seg_resume : forall (X : Type) (f : item -> bool) (g : item -> X) pre sub a x b,
+  wf_tst sub -> map g (filter f (ino_at pre sub)) = a ++ x :: b ->
+  exists lru d path, g (lru, d, path) = x /\ f (lru, d, path) = true /\
+    In (lru, d, path) (ino_at pre sub) /\
+    follow_path (path_digits path) pre sub = Some lru /\
+    map g (filter f (ino_from_at (path_digits path) lru pre sub)) = b.
+Proof.
+  intros X f g pre sub a x b Hwf E.
+  destruct (map_filter_split _ _ _ _ _ _ _ _ E) as [l1 [[[lru d] path] [l2 [H1 [H2 [H3 [H4 H5]]]]]]].
+  exists lru, d, path.
+  assert (Hin : In (lru, d, path) (ino_at pre sub))
+    by (rewrite H1; apply in_or_app; right; left; reflexivity).
+  split; [exact H3|]. split; [exact H2|]. split; [exact Hin|]. split.
+  - apply (ino_at_path_follow _ _ _ _ _ Hin).
+  - rewrite (ino_from_suffix_split sub pre lru d path l1 l2 Hwf H1). exact H5.
+Qed.
+
+Lemma page_items_cons_some : forall co i p ps t sub path lru,
+  find_sub (lru_iter p) t = Some sub ->
+  follow_path (path_digits path) (lru_dirname p) sub = Some lru ->
+  page_items co i (p :: ps) (Some path) t
+  = map (pmk i) (filter (pfilt co) (ino_from_at (path_digits path) lru (lru_dirname p) sub))
+      ++ page_items co (i + 1) ps None t.
+Proof.
+  intros co i p ps t sub path lru Hf Hfo. cbn [page_items]. unfold inorder_items, path_fails.
+  rewrite Hf. change (if path =? 0 then [] else int_to_base4 path) with (path_digits path).
+  rewrite Hfo. reflexivity.
+Qed.
+
+Lemma seg_index : forall co j p t x, In x (seg co j p t) ->
+  exists lru cr path, x = PI j lru cr path.
+Proof.
+  intros co j p t x Hx. rewrite seg_eq in Hx. destruct (find_sub (lru_iter p) t); [|contradiction].
+  apply in_map_iff in Hx. destruct Hx as [y [E _]]. subst x. unfold pmk. eauto.
+Qed.
+
+Lemma segs_resume : forall co ps j t a i lru cr path b,
+  wf_tst t -> all_found ps t ->
+  segs co j ps t = a ++ PI i lru cr path :: b ->
+  exists m : nat, i = j + N.of_nat m /\ page_items co i (skipn m ps) (Some path) t = b.
+Proof.
+  intros co ps. induction ps as [|p ps IH]; intros j t a i lru cr path b Hwf Hall E.
+  - destruct a; discriminate.
+  - cbn [segs] in E. apply app_split_mid in E. destruct E as [[b' [E1 E2]]|[a' [E1 E2]]].
+    + exists O. rewrite seg_eq in E1.
+      destruct (find_sub (lru_iter p) t) as [sub|] eqn:Hf; [|destruct a; discriminate].
+      assert (Hwsub : wf_tst sub) by (eapply find_sub_wf; eauto).
+      destruct (seg_resume _ _ _ _ _ _ _ _ Hwsub E1) as [lru0 [d [path0 [Hg [_ [_ [Hfo Hb]]]]]]].
+      unfold pmk in Hg. cbn [fst snd] in Hg. injection Hg as Ei El Ec Ep. subst i lru0 path0.
+      split; [lia|]. cbn [skipn].
+      rewrite (page_items_cons_some _ _ _ _ _ _ _ _ Hf Hfo), E2.
+      f_equal; [exact Hb|].
+      apply page_items_segs. intros q Hq. apply Hall. right. exact Hq.
+    + destruct (IH (j + 1) t a' i lru cr path b Hwf) as [m [Hi Hp]];
+        [intros q Hq; apply Hall; right; exact Hq|exact E2|].
+      exists (S m). split; [lia|]. exact Hp.
+Qed.
+
+(* ------------------------------------------------------------------------- *)
+(* T2 - the chain                                                             *)
+(* ------------------------------------------------------------------------- *)
+
+(* the items a call looks at *)
+Definition seen (ps : list bytes) (co : bool) (tok : option bytes) (t : tst) : list pitem :=
+  match tok with
+  | None => page_items co 0 ps None t
+  | Some tk =>
+      match parse_token tk with
+      | None => [PErr true]
+      | Some (i, path) => page_items co i (skipn (N.to_nat i) ps) (Some path) t
+      end
+  end.
+
+Lemma paginate_pages_seen : forall ps k tok co s,
+  paginate_pages ps k tok co s = pag_scan k (seen ps co tok (tr s)) 0 0 [] None.
+Proof.
+  intros ps k [tk|] co s; unfold paginate_pages, seen; [|reflexivity].
+  destruct (parse_token tk) as [[i path]|]; reflexivity.
+Qed.
+
+Definition pr0 : page_result := mkPR true 0 0 [] None.
+
+Definition answer_ok (r : page_result) : Prop :=
+  pr_count r = N.of_nat (length (pr_pages r)) /\
+  pr_count_crawled r = N.of_nat (length (filter (fun x => snd x) (pr_pages r))).
+
+Lemma chainp_S : forall f ps k co tok s,
+  chainp (S f) ps k co tok s =
+  match paginate_pages ps (Some k) tok co s with
+  | ROk r => if pr_done r then Some [r]
+             else match pr_token r with
+                  | Some tk => option_map (cons r) (chainp f ps k co (Some tk) s)
+                  | None => None
+                  end
+  | _ => None
+  end.
+Proof. reflexivity. Qed.
+
+(* any call that sees a suffix [b] of the full item list starts a chain that
+   delivers exactly [b] *)
+Lemma chain_from_suffix : forall co ps k s, wf_tst (tr s) -> all_found ps (tr s) -> 1 <= k ->
+  forall n b a tok, (length b <= n)%nat ->
+  segs co 0 ps (tr s) = a ++ b -> seen ps co tok (tr s) = b ->
+  exists rs, chainp (S n) ps k co tok s = Some rs /\ rs <> [] /\
+    concat (map pr_pages rs) = map pout b /\
+    (forall r, In r (removelast rs) -> pr_done r = false /\ length (pr_pages r) = N.to_nat k) /\
+    pr_done (last rs pr0) = true /\
+    (forall r, In r rs -> answer_ok r).
+Proof.
+  intros co ps k s Hwf Hall Hk. induction n as [|n IH]; intros b a tok Hlen Hsplit Hseen.
+  - destruct b; [|simpl in Hlen; lia].
+    rewrite chainp_S, paginate_pages_seen, Hseen. cbn [pag_scan pr_done].
+    eexists. split; [reflexivity|]. split; [discriminate|]. split; [reflexivity|].
+    split; [intros r []|]. split; [reflexivity|].
+    intros r [E|[]]. subst r. split; reflexivity.
+  - assert (Hb : Forall is_PI b).
+    { assert (H := segs_is_PI co ps 0 (tr s)). rewrite Hsplit in H.
+      apply Forall_app in H. apply H. }
+    rewrite chainp_S, paginate_pages_seen, Hseen.
+    destruct (pag_scan_call k b Hb Hk) as [[Hle Hcall]|[Hgt [b1 [i [lru [cr [path [Hfirst Hcall]]]]]]]];
+      rewrite Hcall; cbn [pr_done pr_token].
+    + eexists. split; [reflexivity|]. split; [discriminate|].
+      split; [cbn [map concat pr_pages]; apply app_nil_r|].
+      split; [intros r []|]. split; [reflexivity|].
+      intros r [E|[]]. subst r. split; cbn [pr_count pr_pages pr_count_crawled]; [|reflexivity].
+      rewrite map_length. reflexivity.
+    + set (m := N.to_nat k) in *.
+      assert (Hb12 : b = (b1 ++ [PI i lru cr path]) ++ skipn m b)
+        by (rewrite <- Hfirst; symmetry; apply firstn_skipn).
+      assert (Hsplit' : segs co 0 ps (tr s) = (a ++ b1) ++ PI i lru cr path :: skipn m b).
+      { rewrite Hsplit. rewrite Hb12 at 1. rewrite <- !app_assoc. reflexivity. }
+      destruct (segs_resume _ _ _ _ _ _ _ _ _ _ Hwf Hall Hsplit') as [mi [Hi Hnext]].
+      rewrite N.add_0_l in Hi.
+      assert (Hseen' : seen ps co (Some (build_token i path)) (tr s) = skipn m b).
+      { unfold seen. rewrite token_roundtrip. subst i. rewrite Nat2N.id. exact Hnext. }
+      assert (Hsplit'' : segs co 0 ps (tr s) = (a ++ b1 ++ [PI i lru cr path]) ++ skipn m b).
+      { rewrite Hsplit'. rewrite <- !app_assoc. reflexivity. }
+      assert (Hlen' : (length (skipn m b) <= n)%nat).
+      { rewrite skipn_length. unfold m in *. lia. }
+      destruct (IH _ _ _ Hlen' Hsplit'' Hseen') as [rs [Hch [Hne [Hcat [Hmid [Hlast Hok]]]]]].
+      rewrite Hch. cbn [option_map]. eexists. split; [reflexivity|]. split; [discriminate|].
+      split.
+      { cbn [map concat pr_pages]. rewrite Hcat, <- map_app, firstn_skipn. reflexivity. }
+      split.
+      { intros r Hr. destruct rs as [|r1 rs]; [contradiction Hne; reflexivity|].
+        change (removelast (?x :: r1 :: rs)) with (x :: removelast (r1 :: rs)) in Hr.
+        destruct Hr as [Hr|Hr]; [|apply Hmid; exact Hr].
+        subst r. cbn [pr_done pr_pages]. split; [reflexivity|].
+        rewrite map_length, firstn_length_le by lia. reflexivity. }
+      split.
+      { destruct rs as [|r1 rs]; [contradiction Hne; reflexivity|]. exact Hlast. }
+      intros r [Hr|Hr]; [|apply Hok; exact Hr].
+      subst r. split; cbn [pr_count pr_pages pr_count_crawled]; [|reflexivity].
+      rewrite map_length, firstn_length_le by lia. unfold m. rewrite N2Nat.id. reflexivity.
+Qed.
+
+Theorem C09_chunks : forall co ps k s,
+  wf_tst (tr s) -> (forall p, In p ps -> find_sub (lru_iter p) (tr s) <> None) -> 1 <= k ->
+  exists fuel rs, chainp fuel ps k co None s = Some rs /\
+    concat (map pr_pages rs) = full_pages co ps (tr s) /\
+    (forall r, In r (removelast rs) -> pr_done r = false /\ length (pr_pages r) = N.to_nat k) /\
+    pr_done (last rs pr0) = true /\
+    (forall r, In r rs ->
+       pr_count r = N.of_nat (length (pr_pages r)) /\
+       pr_count_crawled r = N.of_nat (length (filter (fun x => snd x) (pr_pages r)))).
+Proof.
+  intros co ps k s Hwf Hall Hk.
+  destruct (chain_from_suffix co ps k s Hwf Hall Hk (length (segs co 0 ps (tr s)))
+              (segs co 0 ps (tr s)) [] None (le_n _) eq_refl)
+    as [rs [Hch [_ [Hcat [Hmid [Hlast Hok]]]]]].
+  { unfold seen. apply page_items_segs. exact Hall. }
+  exists (S (length (segs co 0 ps (tr s)))), rs. split; [exact Hch|].
+  split; [exact Hcat|]. split; [exact Hmid|]. split; [exact Hlast|exact Hok].
+Qed.
+
+(* ------------------------------------------------------------------------- *)
+(* T3 - the order of the full answer                                          *)
+(* ------------------------------------------------------------------------- *)
+
+Lemma SSorted_filter : forall (A : Type) (R : A -> A -> Prop) (f : A -> bool) l,
+  StronglySorted R l -> StronglySorted R (filter f l).
+Proof.
+  intros A R f l H. induction H as [|x l Hs IH Hf]; cbn [filter]; [constructor|].
+  destruct (f x); [|exact IH]. constructor; [exact IH|].
+  rewrite Forall_forall in *. intros y Hy. apply filter_In in Hy. apply Hf. apply Hy.
+Qed.
+
+Lemma SSorted_map : forall (A B : Type) (R : B -> B -> Prop) (g : A -> B) l,
+  StronglySorted (fun x y => R (g x) (g y)) l -> StronglySorted R (map g l).
+Proof.
+  intros A B R g l H. induction H as [|x l Hs IH Hf]; cbn [map]; [constructor|].
+  constructor; [exact IH|]. rewrite Forall_forall in *. intros y Hy.
+  apply in_map_iff in Hy. destruct Hy as [z [E Hz]]. subst y. apply Hf. exact Hz.
+Qed.
+
+(* the (lru, crawled) pairs of the qualifying pages below one prefix *)
+Definition seg_pages (co : bool) (p : bytes) (t : tst) : list (bytes * bool) :=
+  map pout (seg co 0 p t).
+
+Lemma seg_pout : forall co i p t, map pout (seg co i p t) = seg_pages co p t.
+Proof.
+  intros co i p t. unfold seg_pages. rewrite !seg_eq. destruct (find_sub (lru_iter p) t); [|reflexivity].
+  rewrite !map_map. reflexivity.
+Qed.
+
+Theorem full_pages_by_prefix : forall co ps t,
+  full_pages co ps t = flat_map (fun p => seg_pages co p t) ps.
+Proof.
+  intros co ps t. unfold full_pages. generalize 0. induction ps as [|p ps IH]; intros i; [reflexivity|].
+  cbn [segs flat_map]. rewrite map_app, seg_pout, IH. reflexivity.
+Qed.
+
+Theorem C09_sorted : forall co i p t, wf_tst t ->
+  StronglySorted (fun x y => lex (fst (pout x)) (fst (pout y)) = Lt) (seg co i p t).
+Proof.
+  intros co i p t Hwf. rewrite seg_eq. destruct (find_sub (lru_iter p) t) as [sub|] eqn:Hf; [|constructor].
+  apply SSorted_map. apply SSorted_filter.
+  apply (ino_at_sorted sub (lru_dirname p)). eapply find_sub_wf; eauto.
+Qed.
+
+Corollary C09_sorted_pages : forall co p t, wf_tst t ->
+  StronglySorted (fun x y => lex (fst x) (fst y) = Lt) (seg_pages co p t).
+Proof.
+  intros co p t Hwf. unfold seg_pages. apply SSorted_map. apply C09_sorted. exact Hwf.
+Qed.
+
+(* ------------------------------------------------------------------------- *)
+(* T4 - same pages as the unpaginated queries                                 *)
+(* ------------------------------------------------------------------------- *)
+
+Definition inode (x : bytes * nd * N) : bytes * nd := (fst (fst x), snd (fst x)).
+
+Lemma ino_wdfs_perm_sib : forall t path lvl pre,
+  Permutation (map inode (ino path pre t)) (wdfs None lvl pre t).
+Proof.
+  induction t as [|d l IHl c IHc r IHr]; intros path lvl pre; cbn [ino wdfs map]; [constructor|].
+  rewrite !map_app. rewrite Permutation_app_swap_app.
+  apply Permutation_app; [|apply Permutation_app; [apply IHl|apply IHr]].
+  destruct (we d =? 0); [|constructor]. cbn [map depth_ok]. unfold inode at 1. cbn [fst snd].
+  constructor. apply IHc.
+Qed.
+
+Theorem ino_wdfs_perm : forall pre sub,
+  Permutation (map (fun x => (fst (fst x), snd (fst x))) (ino_at pre sub)) (wdfs_at None pre sub).
+Proof.
+  intros pre [|d l c r]; cbn [ino_at wdfs_at map depth_ok]; [constructor|].
+  cbn [fst snd]. constructor. apply (ino_wdfs_perm_sib c 2 1 (pre ++ stem d)).
+Qed.
+
+Lemma Permutation_filter : forall (A : Type) (f : A -> bool) l l',
+  Permutation l l' -> Permutation (filter f l) (filter f l').
+Proof.
+  intros A f l l' H. induction H as [|x l l' H IH|x y l|l l' l'' H1 IH1 H2 IH2]; cbn [filter].
+  - constructor.
+  - destruct (f x); [constructor|]; exact IH.
+  - destruct (f x), (f y); try apply Permutation_refl. constructor.
+  - eapply Permutation_trans; eauto.
+Qed.
+
+Lemma filter_map_comm : forall (A B : Type) (f : B -> bool) (g : A -> B) l,
+  filter f (map g l) = map g (filter (fun x => f (g x)) l).
+Proof.
+  intros A B f g l. induction l as [|x l IH]; cbn [map filter]; [reflexivity|].
+  destruct (f (g x)); cbn [map]; rewrite IH; reflexivity.
+Qed.
+
+(* over_prefixes when every prefix is found *)
+Definition opl {A} (f : bytes -> tst -> list A) (ps : list bytes) (t : tst) : list A :=
+  flat_map (fun p => match find_sub (lru_iter p) t with Some sub => f p sub | None => [] end) ps.
+
+Lemma over_prefixes_found : forall A (f : bytes -> tst -> list A) ps t, all_found ps t ->
+  over_prefixes f ps t = ROk (opl f ps t).
+Proof.
+  intros A f ps t. induction ps as [|p ps IH]; intros Hall; [reflexivity|].
+  cbn [over_prefixes opl flat_map].
+  destruct (find_sub (lru_iter p) t) as [sub|] eqn:Hf;
+    [|exfalso; apply (Hall p (or_introl eq_refl)); exact Hf].
+  rewrite IH by (intros q Hq; apply Hall; right; exact Hq). reflexivity.
+Qed.
+
+(* the page nodes of one prefix in walk order, and the same through the dfs *)
+Definition ino_pages_of (p : bytes) (sub : tst) : list (bytes * nd) :=
+  map inode (filter (fun x => page (snd (fst x))) (ino_at (lru_dirname p) sub)).
+Definition dfs_pages_of (p : bytes) (sub : tst) : list (bytes * nd) :=
+  filter (fun x => page (snd x)) (wdfs_at None (lru_dirname p) sub).
+
+Lemma ino_dfs_pages_perm : forall p sub, Permutation (ino_pages_of p sub) (dfs_pages_of p sub).
+Proof.
+  intros p sub. unfold ino_pages_of, dfs_pages_of.
+  rewrite <- (filter_map_comm _ _ (fun y : bytes * nd => page (snd y)) inode).
+  apply Permutation_filter. apply ino_wdfs_perm.
+Qed.
+
+(* page nodes of all prefixes in walk order *)
+Definition ino_pages (ps : list bytes) (t : tst) : list (bytes * nd) := opl ino_pages_of ps t.
+
+Lemma ino_pages_perm : forall ps t,
+  Permutation (ino_pages ps t) (opl dfs_pages_of ps t).
+Proof.
+  intros ps t. unfold ino_pages, opl. induction ps as [|p ps IH]; cbn [flat_map]; [constructor|].
+  apply Permutation_app; [|exact IH].
+  destruct (find_sub (lru_iter p) t); [apply ino_dfs_pages_perm|constructor].
+Qed.
+
+Lemma we_page_nodes_found : forall ps s, all_found ps (tr s) ->
+  we_page_nodes None ps s = ROk (opl dfs_pages_of ps (tr s)).
+Proof. intros ps s H. unfold we_page_nodes. apply over_prefixes_found. exact H. Qed.
+
+Lemma seg_pages_false : forall p t,
+  seg_pages false p t
+  = map (fun x => (fst x, crawled (snd x)))
+        (match find_sub (lru_iter p) t with Some sub => ino_pages_of p sub | None => [] end).
+Proof.
+  intros p t. unfold seg_pages. rewrite seg_eq. destruct (find_sub (lru_iter p) t) as [sub|]; [|reflexivity].
+  unfold ino_pages_of. rewrite !map_map. unfold pmk, pout, inode. cbn [fst snd].
+  f_equal. apply filter_ext. intros x. unfold pfilt. cbn [negb orb]. apply andb_true_r.
+Qed.
+
+Lemma seg_pages_true : forall p t,
+  seg_pages true p t
+  = map (fun x => (fst x, true))
+        (filter (fun x => crawled (snd x))
+           (match find_sub (lru_iter p) t with Some sub => ino_pages_of p sub | None => [] end)).
+Proof.
+  intros p t. unfold seg_pages. rewrite seg_eq. destruct (find_sub (lru_iter p) t) as [sub|]; [|reflexivity].
+  unfold ino_pages_of. generalize (ino_at (lru_dirname p) sub). intros l.
+  induction l as [|x l IH]; [reflexivity|].
+  cbn [filter]. unfold pfilt at 1. cbn [negb orb].
+  destruct (page (snd (fst x))) eqn:Ep; cbn [andb]; [|exact IH].
+  cbn [map filter]. unfold inode at 1. cbn [fst snd].
+  destruct (crawled (snd (fst x))) eqn:Ec; [|exact IH].
+  cbn [map]. rewrite IH. unfold pmk at 1, pout at 1. cbn [fst snd]. rewrite Ec. reflexivity.
+Qed.
+
+Lemma flat_map_map : forall (A B C : Type) (f : A -> list B) (g : B -> C) l,
+  map g (flat_map f l) = flat_map (fun x => map g (f x)) l.
+Proof.
+  intros A B C f g l. induction l as [|x l IH]; cbn [flat_map map]; [reflexivity|].
+  rewrite map_app, IH. reflexivity.
+Qed.
+
+Lemma flat_map_filter : forall (A B : Type) (f : A -> list B) (g : B -> bool) l,
+  filter g (flat_map f l) = flat_map (fun x => filter g (f x)) l.
+Proof.
+  intros A B f g l. induction l as [|x l IH]; cbn [flat_map filter]; [reflexivity|].
+  rewrite filter_app, IH. reflexivity.
+Qed.
+
+Lemma full_pages_false : forall ps t,
+  full_pages false ps t = map (fun x => (fst x, crawled (snd x))) (ino_pages ps t).
+Proof.
+  intros ps t. rewrite full_pages_by_prefix. unfold ino_pages, opl. rewrite flat_map_map.
+  apply flat_map_ext. intros p. apply seg_pages_false.
+Qed.
+
+Lemma full_pages_true : forall ps t,
+  full_pages true ps t
+  = map (fun x => (fst x, true)) (filter (fun x => crawled (snd x)) (ino_pages ps t)).
+Proof.
+  intros ps t. rewrite full_pages_by_prefix. unfold ino_pages, opl.
+  rewrite flat_map_filter, flat_map_map.
+  apply flat_map_ext. intros p. apply seg_pages_true.
+Qed.
+
+Theorem C09_same_pages : forall ps s, all_found ps (tr s) ->
+  match webentity_pages ps s with
+  | ROk l => Permutation (full_pages false ps (tr s)) l
+  | _ => False
+  end.
+Proof.
+  intros ps s Hall. unfold webentity_pages. rewrite (we_page_nodes_found ps s Hall).
+  rewrite full_pages_false. apply Permutation_map. apply ino_pages_perm.
+Qed.
+
+Theorem C09_same_crawled_pages : forall ps s, all_found ps (tr s) ->
+  match webentity_crawled_pages ps s with
+  | ROk l => Permutation (full_pages true ps (tr s)) l
+  | _ => False
+  end.
+Proof.
+  intros ps s Hall. unfold webentity_crawled_pages. rewrite (we_page_nodes_found ps s Hall).
+  rewrite full_pages_true. apply Permutation_map. apply Permutation_filter. apply ino_pages_perm.
+Qed.
+
+(* ------------------------------------------------------------------------- *)
+(* tokens handed out by a call name an item the call has seen                 *)
+(* ------------------------------------------------------------------------- *)
+
+Lemma pag_scan_token : forall k its n c acc last r tk,
+  pag_scan k its n c acc last = ROk r -> pr_token r = Some tk ->
+  exists li lp, tk = build_token li lp /\
+    (last = Some (li, lp) \/ exists lru cr, In (PI li lru cr lp) its).
+Proof.
+  intros k its. induction its as [|x its IH]; intros n c acc last r tk H Ht.
+  - cbn [pag_scan] in H. injection H as E. subst r. discriminate.
+  - destruct x as [i lru cr path|crash]; cbn [pag_scan] in H; [|destruct crash; discriminate].
+    destruct (match k with Some k0 => k0 <=? n | None => false end).
+    + destruct last as [[li lp]|]; [|discriminate]. injection H as E. subst r.
+      cbn [pr_token] in Ht. injection Ht as E. exists li, lp. split; [symmetry; exact E|left; reflexivity].
+    + destruct (IH _ _ _ _ _ _ H Ht) as [li [lp [E [Hl|[lru' [cr' Hin]]]]]]; exists li, lp; (split; [exact E|]).
+      * injection Hl as E1 E2. subst li lp. right. exists lru, cr. left. reflexivity.
+      * right. exists lru', cr'. right. exact Hin.
+Qed.
+
+Theorem call_token_item : forall ps k tok co s r tk,
+  paginate_pages ps k tok co s = ROk r -> pr_token r = Some tk ->
+  exists i lru cr path, tk = build_token i path /\ In (PI i lru cr path) (seen ps co tok (tr s)).
+Proof.
+  intros ps k tok co s r tk H Ht. rewrite paginate_pages_seen in H.
+  destruct (pag_scan_token _ _ _ _ _ _ _ _ H Ht) as [li [lp [E [Hl|[lru [cr Hin]]]]]]; [discriminate|].
+  exists li, lru, cr, lp. split; assumption.
+Qed.
+
+(* an item of the full list is a page node of the walk below its prefix *)
+Lemma segs_item : forall co ps j t i lru cr path,
+  In (PI i lru cr path) (segs co j ps t) ->
+  exists (m : nat) p sub d, i = j + N.of_nat m /\ nth_error ps m = Some p /\
+    find_sub (lru_iter p) t = Some sub /\ In (lru, d, path) (ino_at (lru_dirname p) sub) /\
+    page d = true /\ cr = crawled d /\ (co = true -> cr = true).
+Proof.
+  intros co ps. induction ps as [|p ps IH]; intros j t i lru cr path Hin; [contradiction|].
+  cbn [segs] in Hin. apply in_app_or in Hin. destruct Hin as [Hin|Hin].
+  - rewrite seg_eq in Hin. destruct (find_sub (lru_iter p) t) as [sub|] eqn:Hf; [|contradiction].
+    apply in_map_iff in Hin. destruct Hin as [[[lru0 d] path0] [E Hy]].
+    unfold pmk in E. cbn [fst snd] in E. injection E as E1 E2 E3 E4. subst i lru0 cr path0.
+    apply filter_In in Hy. destruct Hy as [Hy Hq]. unfold pfilt in Hq. cbn [fst snd] in Hq.
+    apply andb_true_iff in Hq. destruct Hq as [Hp Hc].
+    exists O, p, sub, d. split; [lia|]. split; [reflexivity|]. split; [exact Hf|].
+    split; [exact Hy|]. split; [exact Hp|]. split; [reflexivity|].
+    intros Eco. subst co. exact Hc.
+  - destruct (IH _ _ _ _ _ _ Hin) as [m [q [sub [d [H1 [H2 H3]]]]]].
+    exists (S m), q, sub, d. split; [lia|]. split; [exact H2|exact H3].
+Qed.
+
+(* ------------------------------------------------------------------------- *)
+(* T5 - resuming after the tree has grown                                     *)
+(* ------------------------------------------------------------------------- *)
+
+Lemma skipn_nth : forall (A : Type) (n : nat) (l : list A) x,
+  nth_error l n = Some x -> skipn n l = x :: skipn (S n) l.
+Proof.
+  intros A n. induction n as [|n IH]; intros [|y l] x H; try discriminate.
+  - injection H as E. subst y. reflexivity.
+  - cbn [nth_error] in H. change (skipn (S n) (y :: l)) with (skipn n l).
+    change (skipn (S (S n)) (y :: l)) with (skipn (S n) l). apply IH. exact H.
+Qed.
+
+(* the qualifying items of prefix i in tree t' whose LRU is above [lru] *)
+Definition seg_after (co : bool) (i : N) (p : bytes) (lru : bytes) (sub' : tst) : list pitem :=
+  map (pmk i) (filter (pfilt co)
+                 (filter (fun y => bgt (fst (fst y)) lru) (ino_at (lru_dirname p) sub'))).
+
+(* a token (i, path) obtained on s for the item [lru] of prefix i, used on s' *)
+Theorem C09_stable : forall co ps i p s s' sub sub' lru d path,
+  nth_error ps (N.to_nat i) = Some p ->
+  find_sub (lru_iter p) (tr s) = Some sub ->
+  In (lru, d, path) (ino_at (lru_dirname p) sub) ->
+  find_sub (lru_iter p) (tr s') = Some sub' -> extw sub sub' -> wf_tst (tr s') ->
+  page_items co i (skipn (N.to_nat i) ps) (Some path) (tr s')
+  = seg_after co i p lru sub'
+      ++ page_items co (i + 1) (skipn (S (N.to_nat i)) ps) None (tr s').
+Proof.
+  intros co ps i p s s' sub sub' lru d path Hnth Hf Hin Hf' He Hwf'.
+  assert (Hwsub' : wf_tst sub') by (eapply find_sub_wf; eauto).
+  destruct (ino_from_suffix_extw sub sub' (lru_dirname p) lru d path He Hwsub' Hin)
+    as [_ [Hfo Hfrom]].
+  rewrite (skipn_nth _ _ _ _ Hnth).
+  rewrite (page_items_cons_some _ _ _ _ _ _ _ _ Hf' Hfo), Hfrom. reflexivity.
+Qed.
+
+(* the same when the whole tree has only grown / had flags and link heads rewritten *)
+Corollary C09_stable_tree : forall co ps i p s s' sub lru d path,
+  nth_error ps (N.to_nat i) = Some p ->
+  find_sub (lru_iter p) (tr s) = Some sub ->
+  In (lru, d, path) (ino_at (lru_dirname p) sub) ->
+  extw (tr s) (tr s') -> wf_tst (tr s') ->
+  exists sub', find_sub (lru_iter p) (tr s') = Some sub' /\ extw sub sub' /\
+    page_items co i (skipn (N.to_nat i) ps) (Some path) (tr s')
+    = seg_after co i p lru sub'
+        ++ page_items co (i + 1) (skipn (S (N.to_nat i)) ps) None (tr s').
+Proof.
+  intros co ps i p s s' sub lru d path Hnth Hf Hin He Hwf'.
+  destruct (extw_find_sub _ _ _ _ He Hf) as [sub' [Hf' He']].
+  exists sub'. split; [exact Hf'|]. split; [exact He'|].
+  apply (C09_stable co ps i p s s' sub sub' lru d path); assumption.
+Qed.
+
+(* nothing is repeated: what prefix i still yields lies strictly above the item *)
+Theorem C09_stable_no_repeat : forall co i p lru sub' y,
+  In y (seg_after co i p lru sub') ->
+  exists lru' cr path', y = PI i lru' cr path' /\ lex lru' lru = Gt.
+Proof.
+  intros co i p lru sub' y Hy. unfold seg_after in Hy.
+  apply in_map_iff in Hy. destruct Hy as [[[lru' d'] path'] [E Hy]]. subst y.
+  apply filter_In in Hy. destruct Hy as [Hy _]. apply filter_In in Hy. destruct Hy as [_ Hg].
+  exists lru', (crawled d'), path'. split; [reflexivity|].
+  unfold bgt in Hg. cbn [fst snd] in Hg. destruct (lex lru' lru); try discriminate. reflexivity.
+Qed.
+
+(* nothing is skipped: every qualifying page of s' above the item is still to come *)
+Theorem C09_stable_no_skip : forall co i p lru sub' lru' d' path',
+  In (lru', d', path') (ino_at (lru_dirname p) sub') ->
+  page d' = true -> (co = true -> crawled d' = true) -> lex lru' lru = Gt ->
+  In (PI i lru' (crawled d') path') (seg_after co i p lru sub').
+Proof.
+  intros co i p lru sub' lru' d' path' Hin Hp Hc Hg. unfold seg_after.
+  apply in_map_iff. exists (lru', d', path'). split; [reflexivity|].
+  apply filter_In. split.
+  - apply filter_In. split; [exact Hin|]. unfold bgt. cbn [fst snd]. rewrite Hg. reflexivity.
+  - unfold pfilt. cbn [fst snd]. rewrite Hp. destruct co; [|reflexivity].
+    rewrite (Hc eq_refl). reflexivity.
+Qed.
+
+(* and in ascending order *)
+Theorem C09_stable_sorted : forall co i p lru sub', wf_tst sub' ->
+  StronglySorted (fun x y => lex (fst (pout x)) (fst (pout y)) = Lt) (seg_after co i p lru sub').
+Proof.
+  intros co i p lru sub' Hwf. unfold seg_after.
+  apply SSorted_map. apply SSorted_filter. apply SSorted_filter.
+  apply (ino_at_sorted sub' (lru_dirname p) Hwf).
+Qed.
+
+(* the chain resumed on s' delivers exactly that remainder, then the later prefixes *)
+Lemma segs_skipn : forall co (m : nat) ps j t,
+  exists a, segs co j ps t = a ++ segs co (j + N.of_nat m) (skipn m ps) t.
+Proof.
+  intros co m. induction m as [|m IH]; intros ps j t.
+  - exists []. cbn [skipn app]. rewrite N.add_0_r. reflexivity.
+  - destruct ps as [|p ps].
+    + exists []. reflexivity.
+    + destruct (IH ps (j + 1) t) as [a E]. exists (seg co j p t ++ a).
+      cbn [segs skipn]. rewrite E, <- app_assoc.
+      replace (j + 1 + N.of_nat m) with (j + N.of_nat (S m)) by lia. reflexivity.
+Qed.
+
+Lemma all_found_skipn : forall (m : nat) ps t, all_found ps t -> all_found (skipn m ps) t.
+Proof.
+  intros m ps t H q Hq. apply H. rewrite <- (firstn_skipn m ps). apply in_or_app. right. exact Hq.
+Qed.
+
+Theorem C09_stable_chain : forall co ps k i p s s' sub sub' lru d path,
+  nth_error ps (N.to_nat i) = Some p ->
+  find_sub (lru_iter p) (tr s) = Some sub ->
+  In (lru, d, path) (ino_at (lru_dirname p) sub) ->
+  find_sub (lru_iter p) (tr s') = Some sub' -> extw sub sub' ->
+  wf_tst (tr s') -> all_found ps (tr s') -> 1 <= k ->
+  exists fuel rs, chainp fuel ps k co (Some (build_token i path)) s' = Some rs /\
+    concat (map pr_pages rs)
+      = map pout (seg_after co i p lru sub')
+          ++ map pout (segs co (i + 1) (skipn (S (N.to_nat i)) ps) (tr s')) /\
+    (forall r, In r (removelast rs) -> pr_done r = false /\ length (pr_pages r) = N.to_nat k) /\
+    pr_done (last rs pr0) = true /\
+    (forall r, In r rs -> answer_ok r).
+Proof.
+  intros co ps k i p s s' sub sub' lru d path Hnth Hf Hin Hf' He Hwf' Hall' Hk.
+  assert (Hwsub' : wf_tst sub') by (eapply find_sub_wf; eauto).
+  set (b := seg_after co i p lru sub' ++ segs co (i + 1) (skipn (S (N.to_nat i)) ps) (tr s')).
+  assert (Hseen : seen ps co (Some (build_token i path)) (tr s') = b).
+  { unfold seen. rewrite token_roundtrip.
+    rewrite (C09_stable co ps i p s s' sub sub' lru d path Hnth Hf Hin Hf' He Hwf').
+    unfold b. f_equal. apply page_items_segs. apply all_found_skipn. exact Hall'. }
+  assert (Hsuffix : exists a, segs co 0 ps (tr s') = a ++ b).
+  { destruct (segs_skipn co (N.to_nat i) ps 0 (tr s')) as [a0 E0].
+    rewrite N.add_0_l, N2Nat.id, (skipn_nth _ _ _ _ Hnth) in E0. cbn [segs] in E0.
+    destruct (ino_from_suffix_extw sub sub' (lru_dirname p) lru d path He Hwsub' Hin)
+      as [[d' [Hin' _]] _].
+    destruct (in_split _ _ Hin') as [l1 [l2 El]].
+    assert (Hs := ino_at_sorted sub' (lru_dirname p) Hwsub'). rewrite El in Hs.
+    assert (Hfl : filter (fun y : bytes * nd * N => bgt (fst (fst y)) lru)
+                         (l1 ++ (lru, d', path) :: l2) = l2)
+      by exact (filter_sorted_suffix l1 l2 (lru, d', path) Hs).
+    exists (a0 ++ map (pmk i) (filter (pfilt co) (l1 ++ [(lru, d', path)]))).
+    rewrite E0. rewrite seg_eq, Hf', El. unfold b, seg_after. rewrite El.
+    rewrite Hfl.
+    replace (l1 ++ (lru, d', path) :: l2) with ((l1 ++ [(lru, d', path)]) ++ l2)
+      by (rewrite <- app_assoc; reflexivity).
+    rewrite filter_app, map_app, <- !app_assoc. reflexivity. }
+  destruct Hsuffix as [a Ha].
+  destruct (chain_from_suffix co ps k s' Hwf' Hall' Hk (length b) b a
+              (Some (build_token i path)) (le_n _) Ha Hseen)
+    as [rs [Hch [_ [Hcat [Hmid [Hlast Hok]]]]]].
+  exists (S (length b)), rs. split; [exact Hch|].
+  split; [rewrite Hcat; unfold b; apply map_app|]. split; [exact Hmid|]. split; [exact Hlast|exact Hok].
+Qed.
+
+Print Assumptions page_items_full.
+Print Assumptions C09_chunks.
+Print Assumptions C09_sorted.
+Print Assumptions full_pages_by_prefix.
+Print Assumptions ino_wdfs_perm.
+Print Assumptions C09_same_pages.
+Print Assumptions C09_same_crawled_pages.
+Print Assumptions call_token_item.
+Print Assumptions C09_stable.
+Print Assumptions C09_stable_tree.
+Print Assumptions C09_stable_no_repeat.
+Print Assumptions C09_stable_no_skip.
+Print Assumptions C09_stable_chain.
